@@ -472,3 +472,12 @@ Theorem c11_code_new_flags : forall h10 cc nb ex,
 Proof. exact gen_flow_new_table. Qed.
 Print Assumptions c11_code_late_100.
 Print Assumptions c11_code_new_flags.
+
+(** What an ERROR of [try_read_100] leaves behind is translated too (the same Rust function in "error-state mode": the values of the
+    three fields at the point where it returns an error) and is the model's: the flag is cleared, nothing else changes. *)
+Theorem c11_code_try_read_100_after_error : forall f input f' e,
+  try_read_100 f input = (f', Err e) ->
+  gen_try_read_100_errst (i_reasons f) (i_should_send_body f) (i_await_100 f) (parsed_of (try_parse_response 0 input))
+  = Some (i_reasons f', i_should_send_body f', i_await_100 f').
+Proof. exact gen_try_read_100_errst_ok. Qed.
+Print Assumptions c11_code_try_read_100_after_error.
